@@ -31,7 +31,11 @@ Record req := mkReq {
   cookie : option text;        (* request.cookies.get(cookie_name) *)
   remote_addr : ipaddr;        (* environ['REMOTE_ADDR'] *)
   cur_domain : text;           (* request.domain *)
-  now : Z }.                   (* time_mod.time() / helper.now, whole seconds *)
+  now : Z;                     (* floor of time_mod.time() / helper.now *)
+  half : bool }.               (* the clock reads now + 0.5 (fractional clocks at half-second resolution) *)
+
+(* twice the clock value: comparisons against integer timestamps are made on doubled values *)
+Definition now2 (r : req) : Z := (2 * now r + (if half r then 1 else 0))%Z.
 
 (* arguments handed to CookieProfile.get_headers (one header per domain; there is one domain) *)
 Record ck := mkCk {
@@ -213,9 +217,9 @@ Fixpoint decode_userid (data : list text) (u : uval) : option uval :=
 
 Definition nonempty (t : text) : bool := match t with [] => false | _ => true end.
 
-Definition timed_out (c : cfg) (ts now : Z) : bool :=
+Definition timed_out (c : cfg) (ts n2 : Z) : bool :=       (* n2: twice the clock value *)
   match timeout c with
-  | Some t => negb (Z.eqb t 0) && cmp_eval timeout_cmp (ts + t)%Z now
+  | Some t => negb (Z.eqb t 0) && cmp_eval timeout_cmp (2 * (ts + t))%Z n2
   | None => false
   end.
 
@@ -230,7 +234,7 @@ Definition identify_pre (c : cfg) (r : req) : idres :=
           match parse_ticket (secret c) ck0 ip (hashalg c) with
           | PBad => INone
           | POk ts userid tokens user_data =>
-              if timed_out c ts (now r) then INone
+              if timed_out c ts (now2 r) then INone
               else match decode_userid (split_on pipe user_data) (VStr userid) with
                    | None => IRaise
                    | Some u => ISome ts u tokens user_data
@@ -244,7 +248,7 @@ Definition identify (c : cfg) (r : req) (st : state) : state * idres :=
   | ISome ts u tokens user_data =>
       match reissue_time c with
       | Some rt =>
-          if negb (reissued st) && cmp_eval reissue_cmp (now r - ts)%Z rt then
+          if negb (reissued st) && cmp_eval reissue_cmp (now2 r - 2 * ts)%Z (2 * rt)%Z then
             let tokens' := filter nonempty tokens in
             let was_revoked := revoked st in
             match remember c r u (max_age c) tokens' with
@@ -292,10 +296,11 @@ Definition digest_ok (c : cfg) (r : req) (ck0 : text) : bool :=
   end.
 
 (* What a ticket issued at [t0] for [u] and [toks] must yield at time [now]:
-   that identity while now <= t0 + timeout (or no timeout is configured), nothing afterwards. *)
-Definition spec_issued_identity (c : cfg) (t0 : N) (u : uval) (toks : list text) (now : Z) : option (Z * uval * list text) :=
+   that identity while now <= t0 + timeout (or no timeout is configured), nothing afterwards.
+   [n2] is twice the clock value, so that half seconds can be expressed. *)
+Definition spec_issued_identity (c : cfg) (t0 : N) (u : uval) (toks : list text) (n2 : Z) : option (Z * uval * list text) :=
   match timeout c with
-  | Some t => if negb (Z.eqb t 0) && negb (Z.leb now (Z.of_N t0 + t)) then None
+  | Some t => if negb (Z.eqb t 0) && negb (Z.leb n2 (2 * (Z.of_N t0 + t))) then None
               else Some (Z.of_N t0, u, toks)
   | None => Some (Z.of_N t0, u, toks)
   end.
@@ -316,7 +321,7 @@ Definition is_explicit (c : cfg) (r : req) (o : op) : bool :=
 Definition spec_reissue_ticket (c : cfg) (r : req) : option (list ck) :=
   match identify_pre c r, reissue_time c with
   | ISome ts u tokens _, Some rt =>
-      if Z.ltb rt (now r - ts)        (* "older than the reissue time": the property's wording, not the code's operator *)
+      if Z.ltb (2 * rt) (now2 r - 2 * ts)        (* "older than the reissue time": the property's wording, not the code's operator *)
       then remember c r u (max_age c) (filter nonempty tokens) else None
   | _, _ => None
   end.
@@ -403,10 +408,10 @@ Definition get_cfg (v : val) : option cfg :=
 
 Definition get_req (v : val) : option req :=
   match v with
-  | VL [ck0; ip; dm; nw] =>
+  | VL [ck0; ip; dm; nw; hf] =>
       olet ck0 := get_optT ck0 in olet ip := get_text ip in olet ip := classify_ip ip in
-      olet dm := get_text dm in olet nw := get_Z nw in
-      Some (mkReq ck0 ip dm nw)
+      olet dm := get_text dm in olet nw := get_Z nw in olet hf := get_bool hf in
+      Some (mkReq ck0 ip dm nw hf)
   | _ => None
   end.
 
@@ -460,7 +465,7 @@ Definition out_values (o : out) : list text :=
 Definition no_reissue (c : cfg) : cfg :=
   mkCfg (secret c) (cookie_name c) (secure c) (include_ip c) (timeout c) None (max_age c) (http_only c)
         (path c) (wild_domain c) (parent_domain c) (domain c) (hashalg c) (samesite c).
-Definition with_cookie (r : req) (v : text) : req := mkReq (Some v) (remote_addr r) (cur_domain r) (now r).
+Definition with_cookie (r : req) (v : text) : req := mkReq (Some v) (remote_addr r) (cur_domain r) (now r) (half r).
 
 Definition ip_eqb (a b : ipaddr) : bool :=
   match a, b with
@@ -527,7 +532,7 @@ Definition run_C09 (v : val) : val :=
         let same := match oc, cookie r with Some a, Some b => text_eqb a b | _, _ => false end in
         let expect := match org with
                       | Some o => if compat && same && (o_t0 o <? 4294967296)
-                                  then VL [VI 1; match spec_issued_identity c (o_t0 o) (o_u o) (o_toks o) (now r) with
+                                  then VL [VI 1; match spec_issued_identity c (o_t0 o) (o_u o) (o_toks o) (now2 r) with
                                                  | Some (ts, u, toks) => VL [VI ts; put_uval u; vtexts toks]
                                                  | None => VL []
                                                  end]
